@@ -263,6 +263,11 @@ mod imp {
                 out.push((t.clone(), s));
             }
         }
+        for t in value_pair_trees() {
+            for s in [Strat::Top, Strat::All] {
+                out.push((t.clone(), s));
+            }
+        }
         out
     }
 
